@@ -677,9 +677,9 @@ func exclusiveWiring(c *Ctx) {
 		if !q.ok() {
 			continue
 		}
-		cls := closuresOf(q.fn, func(f *ssa.Function) bool { return true })
+		cls := closuresOf(q.fn, func(f *ssa.Function) bool { return an.ClosureRole(f) == "ret" })
 		if len(cls) != 1 {
-			q.undecided("WR", "option "+oc[0]+" sets its field", "expected exactly one closure")
+			q.undecided("WR", "option "+oc[0]+" sets its field", "expected exactly one returned closure")
 			continue
 		}
 		var stores []ssa.Instruction
